@@ -1,15 +1,15 @@
-import Pearl.Model.Script
+import Pearl.Model.Driver
 import Pearl.Oracle
 open Pearl
 
-partial def loop (h : IO.FS.Stream) (out : IO.FS.Stream) (s : Store) : IO Unit := do
+partial def loop (h : IO.FS.Stream) (out : IO.FS.Stream) (s : Driver.DState) : IO Unit := do
   let line ← h.getLine
   if line.isEmpty then return ()
   let t := line.trimAscii.toString
   if t.isEmpty || t.startsWith "#" then
     loop h out s
   else
-    let (s', o) := Script.step s t
+    let (s', o) := Driver.step s t
     out.putStrLn o
     loop h out s'
 
@@ -30,5 +30,5 @@ def main (args : List String) : IO Unit := do
   if args.contains "--oracle" then
     oracleLoop stdin stdout {}
   else
-    loop stdin stdout ({} : Store)
+    loop stdin stdout ({} : Driver.DState)
   stdout.flush
